@@ -136,3 +136,6 @@ package app
 //@ ensures implies(result0 != nil, writes() == old(writes()) + 1 && same(lastdata(), result0.AllSerialised))
 //@ ensures implies(writes() == old(writes()), nonnil(result1))
 //@ loop 1 invariant true
+
+// perrsOk(e): a ParserErrors value as NewParserErrors builds it from the parser's result: a list of existing errors.
+//@ spec perrsOk(e ParserErrors) bool = typeis(e, parserErrors) && forall(i, 0, len(e.(parserErrors).errors), typeis(e.(parserErrors).errors[i], *txt.err))
